@@ -12,7 +12,7 @@ for pid in sys.argv[1:]:
         shutil.copy(p, os.path.join(dst, "patch.diff"))
         shutil.copy(os.path.join(src, "demo%d.py" % n), os.path.join(dst, "demo.py"))
         meta = json.load(open(os.path.join(src, "meta%d.json" % n)))
-        meta["property"] = pid
+        meta["property"] = pid[-3:]
         meta["origin"] = "independent sub-agent given only the property text and a scratch worktree"
         json.dump(meta, open(os.path.join(dst, "meta.json"), "w"), indent=1, sort_keys=True)
         print(dst, "-", meta.get("summary", "")[:110])
